@@ -206,6 +206,45 @@ def run(ctx):
         ctx.check(okl and rows <= {tuple(a_idx), tuple(b_idx)} and len(rows) == 2, 'sample_square:long-chain',
                   'sample_square on a sum of two deltas with %d modes of size %d: %d distinct rows drawn, %d of them with probability zero'
                   % (d_, nk, len(rows), len(rows - {tuple(a_idx), tuple(b_idx)})))
+    # probabilities spanning sixty binary orders of magnitude inside one fibre (entries 4, 1, 2^-60 ...): an index of tiny
+    # but non-zero probability keeps exactly that probability in the chain (relative accuracy per entry, noise switched off)
+    from .audit import AuditGen
+    for t, rk in enumerate((1, 2, 1, 2)):
+        nq = [3, 3, 3] if t < 2 else [2, 4, 3]
+        def posvec(k_):
+            return 2.0 ** rng.choice([2, 0, -60, -30, 1], size=k_)
+        parts = [[posvec(k_).reshape(1, k_, 1) for k_ in nq] for _ in range(rk)]
+        Yp = parts[0]
+        for P_ in parts[1:]:
+            Yp = F.tt_add(Yp, P_)
+        from fractions import Fraction as Fr
+        W = sum(np.multiply.outer(np.multiply.outer(P_[0][0, :, 0], P_[1][0, :, 0]), P_[2][0, :, 0]) for P_ in parts)
+        Wf = np.vectorize(lambda x: Fr(float(x)), otypes=[object])(W)
+        g_ = AuditGen(11 + t)
+        res = np.asarray(teneva.sample(Yp, 60, seed=g_, unsert=0.))
+        calls = [l for l in g_.log if l['fn'] == 'choice' and l['p'] is not None]
+        okp, why = True, ''
+        # bind by content: every recorded vector must be the exact conditional of SOME prefix (first mode: the marginal)
+        exact = []
+        tot = sum(Wf.ravel())
+        exact.append([float(sum(Wf[i].ravel()) / tot) for i in range(nq[0])])
+        for i in range(nq[0]):
+            si = sum(Wf[i].ravel())
+            exact.append([float(sum(Wf[i, j].ravel()) / si) for j in range(nq[1])])
+            for j in range(nq[1]):
+                sij = sum(Wf[i, j].ravel())
+                exact.append([float(Wf[i, j, k] / sij) for k in range(nq[2])])
+        for l in calls:
+            for row in np.atleast_2d(l['p']):
+                row = np.asarray(row, dtype=float)
+                hit = any(len(ex) == len(row) and all(abs(a_ - b_) <= 1e-9 * b_ for a_, b_ in zip(row, ex)) for ex in exact)
+                if not hit:
+                    okp, why = False, 'a conditional vector %s handed to the generator is not the exact conditional of any prefix (relative 1e-9 per entry)' % np.array2string(row, precision=3)
+                    break
+            if not okp:
+                break
+        ctx.case(key=('wide-fibre', t, rk), nontrivial=True)
+        ctx.check(okp and res.shape == (60, 3), 'sample:wide-range', 'sample() on a tensor whose fibres span 2^-60 .. 4: %s' % (why or 'wrong result shape'))
     ctx.notes['executions_whose_choice_calls_could_not_be_bound'] = unbound
     # Latin hypercube counts for every (mode size, m) in a rectangle (exhaustive: the rule is arithmetic in m and n_k)
     for nk in range(1, 13 if quick else 33):
